@@ -4,7 +4,7 @@ From Coq Require Import List Ascii String ZArith Bool Lia.
 From Coq Require Import QArith.
 Local Close Scope Q_scope.
 From PV Require Import Base.Float Proofs.Decimal Proofs.Shortest.
-From PV Require Import Base.Sx Base.Text Spec.Hier Gen.CifTags Model.PdbLex Model.PdbParse Model.CifLex Model.CifParse Model.CifWrite Proofs.C02col.
+From PV Require Import Base.Sx Base.Text Spec.Hier Gen.CifTags Model.PdbLex Model.PdbParse Model.CifLex Model.CifParse Model.CifWrite Proofs.C02col Proofs.C02seq Proofs.C04table.
 Import ListNotations.
 Local Open Scope string_scope.
 
@@ -72,6 +72,33 @@ Theorem C04_fixed_text_reads_back : forall neg ds1 ds2, all_digit ds1 -> ds1 <> 
   Some (neg_of neg (Qmake (dval ds1 * 10 ^ Z.of_nat (List.length ds2) + dval ds2) (Z.to_pos (10 ^ Z.of_nat (List.length ds2))))).
 Proof. exact parse_dec_fraction. Qed.
 
+(* 5. the aligned atom_site table: for any structure, if every cell the writer prints is a legal unquoted spelling (the
+      property's precondition on identifiers; integers and the record names always are, below), the lexer reads the loop
+      the writer printed - its literal header (regenerated from the source) followed by the padded rows - as exactly the
+      column names of the literal and, row by row, the values of the cells *)
+Theorem C04_written_atom_table_is_read : forall (p : pdb) fuel,
+  let anisou := has_aniso p in
+  let lines := table p in
+  let sizes := match lines with l0 :: _ => fold_left widths lines (repeat 1%nat (List.length l0)) | [] => [] end in
+  lines <> [] ->
+  Forall (fun l : list text => match l with t0 :: ts => legal_cell t0 /\ Forall (fun t => legal_cell (cell t)) ts | [] => False end) lines ->
+  Forall (fun l : list text => List.length l = List.length (written_headers anisou)) lines ->
+  (List.length (written_headers anisou) * S (List.length lines) + 2 < fuel)%nat ->
+  exists tail',
+  parse_data_item fuel (line 6 [if anisou then stext cif_writer_aniso_header else []] ++ flat_map (render_line sizes) lines ++ line 7 [])%list =
+  Some (inl (DLoop (map snd (written_headers anisou)) (map (row_vals bare_val sizes) lines)), tail').
+Proof. exact written_atom_table_is_read. Qed.
+(* the layout of any table is a sequence of tokens: each cell after a separator of blanks (or the line end of the row before) *)
+Theorem C04_table_layout_is_a_token_sequence : forall sizes lines carry tail,
+  (carry ++ flat_map (render_line sizes) lines ++ tail)%list =
+  (render (fst (table_toks carry sizes lines)) ++ snd (table_toks carry sizes lines) ++ tail)%list.
+Proof. exact table_render. Qed.
+(* integers and record names are legal unquoted spellings, whatever the structure *)
+Theorem C04_integer_cells_are_legal : forall z, bare (show_int z).
+Proof. exact show_int_bare. Qed.
+Theorem C04_record_name_cells_are_legal : forall h : bool, bare (if h then stext "HETATM" else stext "ATOM").
+Proof. exact record_name_bare. Qed.
+
 Print Assumptions C04_writer_tags_are_reader_tags.
 Print Assumptions C04_reader_columns_are_written.
 Print Assumptions C04_reader_items_are_written.
@@ -80,3 +107,7 @@ Print Assumptions C04_model_items_are_the_source_items.
 Print Assumptions C04_full_precision_number_reads_back.
 Print Assumptions C04_printed_digits_round_to_the_value.
 Print Assumptions C04_fixed_text_reads_back.
+Print Assumptions C04_written_atom_table_is_read.
+Print Assumptions C04_table_layout_is_a_token_sequence.
+Print Assumptions C04_integer_cells_are_legal.
+Print Assumptions C04_record_name_cells_are_legal.
